@@ -138,7 +138,8 @@ impl DataShape {
     }
 
     fn set_word(&mut self, word: &str) -> Result<()> {
-        match word.trim_start_matches(self.prefix) {
+        // Remove the prefix once: `struct_struct_named` is not a shape word.
+        match word.strip_prefix(self.prefix).unwrap_or(word) {
             "newtype" => {
                 self.newtype = true;
                 Ok(())
